@@ -65,12 +65,13 @@ Definition omap {A B} (f : A -> B) (o : option A) : option B :=
 
 Definition theory_rule (o : op) (targs : list term) (args : list theory) : option theory :=
   match o with
-  | ORealC _ _ => Some th_real
-  | OIntC _ => Some th_int
-  | OBVC _ _ => Some th_bv
-  | OStrC _ => Some th_str
-  | OBoolC _ => Some th0
-  | OSymbol _ ty => Some (theory_from_type ty)
+  (* leaves have no children (FNode invariant): the walk_* methods never look at args there *)
+  | ORealC _ _ => match args with [] => Some th_real | _ => None end
+  | OIntC _ => match args with [] => Some th_int | _ => None end
+  | OBVC _ _ => match args with [] => Some th_bv | _ => None end
+  | OStrC _ => match args with [] => Some th_str | _ => None end
+  | OBoolC _ => match args with [] => Some th0 | _ => None end
+  | OSymbol _ ty => match args with [] => Some (theory_from_type ty) | _ => None end
   | OFunction _ fty =>
       let base := match args with
                   | [] => th0
@@ -81,20 +82,20 @@ Definition theory_rule (o : op) (targs : list term) (args : list theory) : optio
       | TFun _ r => Some (set_uf (t_combine base (theory_from_type r)))
       | _ => None
       end
-  | OToReal => match args with a :: _ => Some (t_set_lira a true) | [] => None end
+  | OToReal => match args with [a] => Some (t_set_lira a true) | _ => None end   (* unary *)
   | OStr SLength | OStr SIndexOf | OStr SToInt => omap set_int (walk_combine args)
-  | OStr SFromInt => match args with a :: _ => Some (t_set_strings a true) | [] => None end
+  | OStr SFromInt => match args with [a] => Some (t_set_strings a true) | _ => None end
   | OForall vs | OExists vs =>
       match args with
-      | a :: _ => Some (fold_left (fun th v => t_combine th (theory_from_type (snd v))) vs (t_copy a))
-      | [] => None
+      | [a] => Some (fold_left (fun th v => t_combine th (theory_from_type (snd v))) vs (t_copy a))
+      | _ => None
       end
-  | OBVToNat => match args with a :: _ => Some (set_int (t_copy a)) | [] => None end
+  | OBVToNat => match args with [a] => Some (set_int (t_copy a)) | _ => None end
   | OTimes =>
       omap (fun th =>
               let th := if Nat.ltb 1 (List.length (filter has_fv targs)) then t_set_linear th false else th in
               t_set_difference_logic th false) (fold_combine args)
-  | OPow => match args with a :: _ => Some (t_set_linear a false) | [] => None end
+  | OPow => match args with [a; _] => Some (t_set_linear a false) | _ => None end   (* base, constant exponent *)
   | OPlus => omap (fun th => t_set_difference_logic th false) (fold_combine args)
   | OArrayValue it =>
       omap (fun th => set_arr_const (t_combine th (theory_from_type it))) (walk_combine args)
